@@ -40,7 +40,7 @@ fn cpaths(p: &Vec<Vec<String>>) -> String {
 }
 
 pub fn evals(prop: &str) -> Vec<(&'static str, &'static str)> {
-    let mut v = vec![("corr_dedup", "corr_dedup"), ("corr_dd_tg", "corr_dd_tg")];
+    let mut v = vec![("corr_dedup", "corr_dedup"), ("corr_dd_tg", "corr_dd_tg"), ("corr_teq_trace", "corr_teq_trace_dd")];
     if prop == "C03" {
         v.extend([
             ("prop_no_conflation", "prop_no_conflation"),
